@@ -13,6 +13,7 @@ upgraded document, by the real loader, and no second propdef/package is needed.
 """
 
 PROP = {
+    "level_text_more": 'Mistyped values include integers spelled as integral floats (10.0). TestVFC13SpellingPreserved gives string settings of recent historical configurations another plain spelling and compares the running configuration after the upgrading start with the one of a start on an already current file with the same spelling; spellings an untyped reader takes for numbers, dates or null are a listed open finding and kept out by construction.',
     "parts": [
         {"name": "migrate", "pkg": "internal/configmigrate",
          "files": [
